@@ -12,6 +12,7 @@ import Reamber.Lemmas.TimingMono
 import Reamber.Lemmas.TimingRoundTrip
 import Reamber.Lemmas.TimingRoundTripErr
 import Reamber.Lemmas.TimingBeats
+import Reamber.Lemmas.Argsort
 import Reamber.Spec.Timing
 import Reamber.Generated.Consts
 
@@ -266,9 +267,9 @@ theorem beats_exact (g : Array Rat) (hg : GridOK g) (t0 : Rat) (cs : List BcSnap
     (hwf : wfChanges cs = true) (hs : sortedSnaps cs = true) (h0 : firstAtZero cs = true)
     (hgc : gridCompatible g.toList cs = true) (hm : metronomeOk cs = true)
     (M : Rat) (hM : ∀ c ∈ cs, c.met = M)
-    (σq σs : List Nat) (ts : List Rat) (hσ : SortsAscR σq ts) (hts : ∀ t ∈ ts, OnGridAt g.toList t0 cs t) :
+    (σq : List Nat) (ts : List Rat) (hσ : SortsAscR σq ts) (hts : ∀ t ∈ ts, OnGridAt g.toList t0 cs t) :
     ∃ sn, snapsWith g σq (tmOf t0 cs) ts = .ok sn ∧
-      (SortsAscFwd σs sn → beatsWith g σq σs (tmOf t0 cs) ts = .ok (ts.map (beatAt t0 cs))) := by
+      ∀ σs, SortsAscFwd σs sn → beatsWith g σq σs (tmOf t0 cs) ts = .ok (ts.map (beatAt t0 cs)) := by
   have hb := bcsOfBco_rederive hg t0 cs hwf hs h0 hgc hm
   cases cs with
   | nil => simp [firstAtZero] at h0
@@ -289,7 +290,7 @@ theorem beats_exact (g : Array Rat) (hg : GridOK g) (t0 : Rat) (cs : List BcSnap
       rw [lookupSnap_eq_snapAtAux g t0 c rest t hwf hs hT, hS, hFt]
     have hsn := snapsWith_order g σq _ ts _ _ F hb hσ (fun t ht => (hF t ht).1)
     refine ⟨ts.map F, hsn, ?_⟩
-    intro hσs
+    intro σs hσs
     unfold beatsWith
     cases hts' : ts with
     | nil => simp
@@ -307,6 +308,57 @@ theorem beats_exact (g : Array Rat) (hg : GridOK g) (t0 : Rat) (cs : List BcSnap
       rw [List.map_map]
       congr 1
       exact List.map_congr_left (fun t ht => (hF t ht).2.2)
+
+/-! ### the executable `offsets` / `snaps` / `beats` (what the correspondence check runs) -/
+
+/-- the sorting permutation the model itself uses satisfies `SortsAsc` -/
+theorem stableArgsort_sortsAsc (qs : List Snap) : SortsAsc (stableArgsort Snap.lt qs) qs :=
+  stableArgsort_sortsAsc' qs
+
+/-- **`offsets`, as executed by the driver**, returns the integration for every tempo list in the domain, every
+list order / entry point, every query list. -/
+theorem offsets_run_correct (g : Array Rat) (hg : GridOK g) (t0 : Rat) (cs : List BcSnap)
+    (hwf : wfChanges cs = true) (hs : strictSnaps cs = true) (h0 : firstAtZero cs = true)
+    (hgc : gridCompatible g.toList cs = true) (hm : metronomeOk cs = true)
+    (qs : List Snap) (hq : ∀ q ∈ qs, queryOk cs q = true) (tm' : List BcOff) (hp : tm'.Perm (tmOf t0 cs)) :
+    offsets g tm' qs = .ok (qs.map (timeAt t0 cs)) ∧ offsets g (fromBcOff tm') qs = .ok (qs.map (timeAt t0 cs)) :=
+  offsets_correct_any_order g hg t0 cs hwf hs h0 hgc hm _ qs (stableArgsort_sortsAsc qs) hq tm' hp
+
+/-- **`snaps` then `offsets`, as executed**: on-grid times come back exactly. -/
+theorem roundtrip_run_exact (g : Array Rat) (hg : GridOK g) (t0 : Rat) (cs : List BcSnap)
+    (hwf : wfChanges cs = true) (hs : sortedSnaps cs = true) (h0 : firstAtZero cs = true)
+    (hgc : gridCompatible g.toList cs = true) (hm : metronomeOk cs = true)
+    (ts : List Rat) (hts : ∀ t ∈ ts, OnGridAt g.toList t0 cs t) :
+    ∃ sn, snaps g (tmOf t0 cs) ts = .ok sn ∧ offsets g (tmOf t0 cs) sn = .ok ts := by
+  obtain ⟨sn, h1, h2⟩ := snaps_offsets_exact g hg t0 cs hwf hs h0 hgc hm _ ts (stableArgsort_sortsAscR ts) hts
+  exact ⟨sn, h1, h2 _ (stableArgsort_sortsAsc sn)⟩
+
+/-- **`snaps` then `offsets`, as executed, any times**: within 1/(2N) beat at the active tempo. -/
+theorem roundtrip_run_err (N : Nat) (hN : 0 < N) (t0 : Rat) (cs : List BcSnap)
+    (hwf : wfChanges cs = true) (hs : sortedSnaps cs = true) (h0 : firstAtZero cs = true)
+    (hgc : gridCompatible (grid N) cs = true) (hm : metronomeOk cs = true)
+    (ts : List Rat) (hts : ∀ t ∈ ts, t0 ≤ t) :
+    ∃ (sn : List Snap) (B : Rat → Rat), snaps (grid N).toArray (tmOf t0 cs) ts = .ok sn ∧
+      offsets (grid N).toArray (tmOf t0 cs) sn = .ok (ts.map B) ∧
+      ∀ t ∈ ts, rabs (B t - t) ≤ 1 / (2 * (N : Rat)) * activeBeatLen t0 cs t := by
+  obtain ⟨sn, B, h1, h2, h3⟩ :=
+    snaps_offsets_err N hN t0 cs hwf hs h0 hgc hm _ ts (stableArgsort_sortsAscR ts) hts
+  exact ⟨sn, B, h1, h2 _ (stableArgsort_sortsAsc sn), h3⟩
+
+/-- **`beats`, as executed** (constant metronome, on-grid times): the declarative beat positions. -/
+theorem beats_run_exact (g : Array Rat) (hg : GridOK g) (t0 : Rat) (cs : List BcSnap)
+    (hwf : wfChanges cs = true) (hs : sortedSnaps cs = true) (h0 : firstAtZero cs = true)
+    (hgc : gridCompatible g.toList cs = true) (hm : metronomeOk cs = true)
+    (M : Rat) (hM : ∀ c ∈ cs, c.met = M) (ts : List Rat) (hts : ∀ t ∈ ts, OnGridAt g.toList t0 cs t) :
+    beats g (tmOf t0 cs) ts = .ok (ts.map (beatAt t0 cs)) := by
+  unfold beats
+  by_cases he : ts.isEmpty = true
+  · have : ts = [] := List.isEmpty_iff.mp he
+    simp [this]
+  · obtain ⟨sn, h1, h2⟩ := beats_exact g hg t0 cs hwf hs h0 hgc hm M hM
+      (stableArgsort (fun a b => decide (a < b)) ts) ts (stableArgsort_sortsAscR ts) hts
+    simp only [he, Bool.false_eq_true, if_false, h1, bind, Except.bind]
+    exact h2 _ (stableArgsort_sortsAscFwd sn)
 
 /-! ### the snapper, for the grid the code builds (`grid N`, every N ≥ 1) -/
 
